@@ -1,0 +1,453 @@
+//go:build verif
+
+// Contracts for the deductive checks in /verif (comment-only). Scope: loader.go, extends.go,
+// include.go, reset.go, interpolate.go, mapstructure.go, paths.go.
+
+package loader
+
+//@ func (*cycleTracker).Add
+//@   nopanic[C01,C05]
+//@   ensures[C01,C05] (err != nil) <==> (exists i int :: 0 <= i && i < len(ct.loaded) && ct.loaded[i].filename == filename && ct.loaded[i].service == service)
+//@   ensures[C01,C05] (err == nil) <==> (result.0 != nil)
+//@   ensures[C01,C05] err == nil ==> fresh(result.0) && len(result.0.loaded) == len(ct.loaded) + 1
+//@   ensures[C01,C05] err == nil ==> forall i int :: 0 <= i && i < len(ct.loaded) ==> result.0.loaded[i] == ct.loaded[i]
+//@   ensures[C01,C05] err == nil ==> result.0.loaded[len(ct.loaded)].filename == filename && result.0.loaded[len(ct.loaded)].service == service
+//@   ensures[C01,C05] len(ct.loaded) == old(len(ct.loaded))
+//@   ensures[C01,C05] forall i int :: 0 <= i && i < len(ct.loaded) ==> ct.loaded[i] == old(ct.loaded[i])
+//@   loop 1
+//@     invariant[C01,C05] -1 <= rangeindex && rangeindex < len(ct.loaded)
+//@     invariant[C01,C05] forall j int :: 0 <= j && j <= rangeindex ==> !(ct.loaded[j].filename == filename && ct.loaded[j].service == service)
+//@     decreases[C01] len(ct.loaded) - rangeindex
+
+// deepClone: the copy shares no container with the original (C05: a base shared by two extenders stays intact)
+// and has the same shape one level down (keys / length, scalars identical, containers copied).
+//@ func deepClone
+//@   nopanic[C01,C05]
+//@   pure
+//@   ensures[C01,C05] wf(result)
+//@   ensures[C05] isMap(value) ==> isMap(result) && fresh(asMap(result))
+//@   ensures[C05] isMap(value) ==> forall k string :: has(asMap(result), k) <==> has(asMap(value), k)
+//@   ensures[C05] isMap(value) ==> forall k string :: has(asMap(value), k) && !isMap(asMap(value)[k]) && !isList(asMap(value)[k]) ==> asMap(result)[k] == asMap(value)[k]
+//@   ensures[C05] isMap(value) ==> forall k string :: has(asMap(value), k) && isMap(asMap(value)[k]) ==> isMap(asMap(result)[k]) && fresh(asMap(asMap(result)[k]))
+//@   ensures[C05] isMap(value) ==> forall k string :: has(asMap(value), k) && isList(asMap(value)[k]) ==> isList(asMap(result)[k]) && fresh(asList(asMap(result)[k]))
+//@   ensures[C05] isList(value) ==> isList(result) && fresh(asList(result)) && len(asList(result)) == len(asList(value))
+//@   ensures[C05] isList(value) ==> forall i int :: 0 <= i && i < len(asList(value)) && !isMap(asList(value)[i]) && !isList(asList(value)[i]) ==> asList(result)[i] == asList(value)[i]
+//@   ensures[C05] !isMap(value) && !isList(value) ==> result == value
+//@   loop 1
+//@     invariant -1 <= rangeindex && rangeindex < len(v)
+//@     invariant len(cp) == len(v)
+//@     invariant forall j int :: 0 <= j && j <= rangeindex && !isMap(v[j]) && !isList(v[j]) ==> cp[j] == v[j]
+//@   loop 2
+//@     invariant forall k string :: has(cp, k) <==> seen(k)
+//@     invariant forall k string :: seen(k) ==> has(v, k)
+//@     invariant forall k string :: seen(k) && !isMap(v[k]) && !isList(v[k]) ==> cp[k] == v[k]
+//@     invariant forall k string :: seen(k) && isMap(v[k]) ==> isMap(cp[k]) && fresh(asMap(cp[k]))
+//@     invariant forall k string :: seen(k) && isList(v[k]) ==> isList(cp[k]) && fresh(asList(cp[k]))
+
+// ---------------------------------------------------------------- Options and small helpers
+
+//@ func (*Options).warnObsoleteVersion
+//@   nopanic[C01]
+
+// listeners are telemetry callbacks supplied by the client: `pure` states the assumption that they do not write loader state
+//@ func (*Options).ProcessEvent
+//@   nopanic[C01]
+//@? pure
+
+//@ func (Options).RemoteResourceLoaders
+//@   nopanic[C01]
+//@?  ensures[C01] (forall i int :: 0 <= i && i < len(o.ResourceLoaders) ==> o.ResourceLoaders[i] != nil) ==> (forall i int :: 0 <= i && i < len(result) ==> result[i] != nil)
+//@   loop 1
+//@     invariant -1 <= rangeindex && rangeindex < len(o.ResourceLoaders)
+//@?    invariant (forall i int :: 0 <= i && i < len(o.ResourceLoaders) ==> o.ResourceLoaders[i] != nil) ==> (forall i int :: 0 <= i && i < len(loaders) ==> loaders[i] != nil)
+
+//@ func (localResourceLoader).abs
+//@   nopanic[C01]
+
+//@ func (localResourceLoader).Accept
+//@   nopanic[C01]
+//@   ensures[C01] result
+
+//@ func (localResourceLoader).Load
+//@   nopanic[C01]
+//@   ensures[C01] err == nil
+
+//@ func (localResourceLoader).Dir
+//@   nopanic[C01]
+
+//@ func (localResourceLoader).isDir
+//@   nopanic[C01]
+
+//@ func (*Options).clone
+//@   nopanic[C01,C05,C06]
+//@   ensures[C01] result != nil && fresh(result)
+//@   ensures[C05,C06] result.SkipValidation == o.SkipValidation && result.SkipInterpolation == o.SkipInterpolation && result.SkipNormalization == o.SkipNormalization
+//@   ensures[C05,C06] result.ResolvePaths == o.ResolvePaths && result.SkipExtends == o.SkipExtends && result.SkipInclude == o.SkipInclude && result.SkipConsistencyCheck == o.SkipConsistencyCheck
+//@   ensures[C05,C06,C17] result.Interpolate == o.Interpolate && result.projectName == o.projectName && result.projectNameImperativelySet == o.projectNameImperativelySet
+//@   ensures[C05,C06] result.ResourceLoaders == o.ResourceLoaders && result.Listeners == o.Listeners
+
+//@ func (*Options).SetProjectName
+//@   nopanic[C01,C17]
+//@   ensures[C17] o.projectName == name && o.projectNameImperativelySet == imperativelySet
+
+//@ func (Options).GetProjectName
+//@   nopanic[C01,C17]
+//@   ensures[C17] result.0 == o.projectName && result.1 == o.projectNameImperativelySet
+
+//@ func WithDiscardEnvFiles
+//@   nopanic[C01]
+//@   requires opts != nil
+
+//@ func WithSkipValidation
+//@   nopanic[C01]
+//@   requires opts != nil
+//@   ensures[C01] opts.SkipValidation
+
+//@ func WithProfiles
+//@   nopanic[C01]
+
+//@ func WithProfiles$1
+//@   nopanic[C01]
+//@   requires opts != nil
+
+//@ func InvalidProjectNameErr
+//@   nopanic[C01,C17]
+//@   ensures[C17] result != nil
+
+//@ func formatInvalidKeyError
+//@   nopanic[C01]
+//@   ensures[C01] result != nil
+
+// ---------------------------------------------------------------- interpolate.go: the conversion functions shared by
+// the interpolation-time table and the decode-time `cast` hook (C08 type transparency)
+
+//@ func iPath
+//@   nopanic[C01,C08]
+
+//@ func servicePath
+//@   nopanic[C01,C08]
+
+//@ func toInt
+//@   nopanic[C01,C08]
+//@   ensures[C08] (err == nil) <==> ext_strconv_Atoi_1(value)
+//@   ensures[C08] err == nil ==> isInt(result.0) && asInt(result.0) == ext_strconv_Atoi_0(value)
+
+//@ func toInt64
+//@   nopanic[C01,C08]
+//@   ensures[C08] (err == nil) <==> ext_strconv_ParseInt_1(value, 10, 64)
+//@   ensures[C08] err == nil ==> isOther(result.0) // an int64 (the engine has no payload accessor for boxed int64)
+
+//@ func toFloat
+//@   nopanic[C01,C08]
+//@   ensures[C08] (err == nil) <==> ext_strconv_ParseFloat_1(value, 64)
+//@   ensures[C08] err == nil ==> isFloat(result.0)
+
+//@ func toFloat32
+//@   nopanic[C01,C08]
+//@   ensures[C08] (err == nil) <==> ext_strconv_ParseFloat_1(value, 32)
+//@   ensures[C08] err == nil ==> isOther(result.0) // a float32
+//@   ensures[C08] err != nil ==> result.0 == nil
+
+// accepts exactly true/false/y/yes/on/n/no/off, case-insensitively
+//@ func toBoolean
+//@   nopanic[C01,C08]
+//@   ensures[C08] (err == nil) <==> (ext_strings_ToLower_0(value) == "true" || ext_strings_ToLower_0(value) == "false" || ext_strings_ToLower_0(value) == "y" || ext_strings_ToLower_0(value) == "yes" || ext_strings_ToLower_0(value) == "on" || ext_strings_ToLower_0(value) == "n" || ext_strings_ToLower_0(value) == "no" || ext_strings_ToLower_0(value) == "off")
+//@   ensures[C08] err == nil ==> isBool(result.0)
+//@   ensures[C08] err == nil ==> (asBool(result.0) <==> (ext_strings_ToLower_0(value) == "true" || ext_strings_ToLower_0(value) == "y" || ext_strings_ToLower_0(value) == "yes" || ext_strings_ToLower_0(value) == "on"))
+//@   ensures[C08] err != nil ==> result.0 == nil
+
+// ---------------------------------------------------------------- mapstructure.go
+
+//@ func decoderHook
+//@   nopanic[C01,C08]
+
+//@ func cast
+//@   nopanic[C01,C08]
+
+// ---------------------------------------------------------------- paths.go
+
+//@ func ResolveRelativePaths
+//@   nopanic[C01]
+//@   requires project != nil
+
+//@ func absPath
+//@   nopanic[C01]
+
+//@ func absComposeFiles
+//@   nopanic[C01]
+//@   ensures[C01] err == nil ==> len(result.0) == len(composeFiles)
+//@   loop 1
+//@     invariant -1 <= rangeindex && rangeindex < len(composeFiles)
+
+//@ func resolvePaths
+//@   nopanic[C01]
+//@   ensures[C01] len(result) == len(in)
+//@   loop 1
+//@     invariant -1 <= rangeindex && rangeindex < len(in)
+//@     invariant len(ret) == len(in)
+
+// ---------------------------------------------------------------- reset.go
+
+//@ func (*ResetProcessor).UnmarshalYAML
+//@   nopanic[C01,C04]
+//@   requires value != nil
+
+//@ func (*ResetProcessor).resolveReset
+//@   nopanic[C01,C04]
+//@   requires node != nil
+//@   requires p.visitedNodes != nil
+
+//@ func (*ResetProcessor).Apply
+//@   nopanic[C01,C04]
+
+//@ func (*ResetProcessor).applyNullOverrides
+//@   nopanic[C01,C04]
+
+// one-step cycle contract: success records (node, path); an alias target that was already entered at an
+// ancestor position (or at this very position) is a reference cycle and must be an error
+//@ func (*ResetProcessor).checkForCycle
+//@   nopanic[C01]
+//@   requires p.visitedNodes != nil
+//@   ensures[C01] err == nil ==> has(p.visitedNodes, node) && len(p.visitedNodes[node]) >= 1
+//@   ensures[C01] err == nil && old(has(p.visitedNodes, node)) ==> len(p.visitedNodes[node]) == old(len(p.visitedNodes[node])) + 1
+//@   ensures[C01] err == nil ==> p.visitedNodes[node][len(p.visitedNodes[node]) - 1] == ext_strings_ReplaceAll_0(path, "👻", ".")
+//@   ensures[C01] old(has(p.visitedNodes, node)) && (exists j int :: 0 <= j && j < old(len(p.visitedNodes[node])) && old(p.visitedNodes[node][j]) == ext_strings_ReplaceAll_0(path, "👻", ".")) ==> err != nil
+//@   loop 1
+//@     invariant -1 <= rangeindex && rangeindex < len(paths)
+//@     invariant forall j int :: 0 <= j && j <= rangeindex ==> paths[j] != pathStr
+
+//@ func areInDifferentServices
+//@   nopanic[C01]
+//@   loop 1
+//@     invariant 0 <= i
+//@     decreases[C01] len(parts1) - i
+
+// ---------------------------------------------------------------- extends.go
+
+// C01: a `services` section that is not a mapping is an error, never a crash.
+// C05: every service is replaced by its resolved definition.
+//@ func ApplyExtends
+//@   nopanic[C01,C05]
+//@   requires ctx != nil && dict != nil && opts != nil && tracker != nil
+//@   ensures[C01] old(has(dict, "services")) && !old(isMap(dict["services"])) ==> err != nil
+//@   ensures[C01] !old(has(dict, "services")) ==> err == nil
+
+// C05 (one step of the property's recursive definition):
+//  - a service without `extends` is returned as is; the result never carries `extends`;
+//  - a base named in the same file that does not exist is an error;
+//  - an error yields no result.
+//@ func applyServiceExtends
+//@   nopanic[C01,C05]
+//@   requires ctx != nil && services != nil && opts != nil && tracker != nil
+//@   ensures[C01,C05] err != nil ==> result.0 == nil
+//@   ensures[C01,C05] err == nil ==> result.0 == nil || isMap(result.0)
+//@   ensures[C01,C05] wf(result.0)
+//@   ensures[C05] err == nil && isMap(result.0) ==> !has(asMap(result.0), "extends")
+//@   ensures[C05] old(has(services, name)) && old(isMap(services[name])) && !old(has(asMap(services[name]), "extends")) ==> err == nil && result.0 == old(services[name])
+//@   ensures[C05] old(has(services, name)) && !old(isNil(services[name])) && !old(isMap(services[name])) ==> err != nil
+//@   ensures[C05] old(has(services, name)) && old(isMap(services[name])) && old(has(asMap(services[name]), "extends")) && old(isStr(asMap(services[name])["extends"])) && !old(has(services, asStr(asMap(services[name])["extends"]))) ==> err != nil
+
+// C01/C05: a missing or unreadable base file, a base file without a `services` mapping or without the
+// referenced service is an error; on success the returned services mapping contains the referenced service.
+//@ func getExtendsBaseFromFile
+//@   nopanic[C01,C05]
+//@? ensures[C01,C05] err == nil ==> has(result.0, ref) && result.1 != nil // engine: the check is made, but paths.ResolveRelativePaths (no contract) then havocs every heap
+//@   requires opts != nil && ct != nil
+//@   ensures[C01,C05] err != nil ==> result.0 == nil && result.1 == nil
+//@   ensures[C01,C05] err == nil ==> result.0 != nil
+//@   ensures[C01] old(len(opts.ResourceLoaders)) == 0 ==> err != nil
+
+// ---------------------------------------------------------------- include.go
+
+// C06: string ↦ {path: s}; anything but a list is an error
+//@ func loadIncludeConfig
+//@   nopanic[C01,C06]
+//@   ensures[C06] isNil(source) ==> err == nil && len(result.0) == 0
+//@   ensures[C06] !isNil(source) && !isList(source) ==> err != nil
+//@   loop 1
+//@     invariant -1 <= rangeindex && rangeindex < len(configs)
+
+//@ func ApplyInclude
+//@   nopanic[C01,C06]
+//@   requires model != nil && options != nil
+//@   ensures[C06] err == nil ==> !has(model, "include")
+
+// C06: exactly services, volumes, networks, secrets and configs are imported.
+// The shape preconditions are what importResource asserts without checking; ApplyInclude calls this on the
+// including document BEFORE schema validation, so they are not established there (call-site obligation = finding).
+//@ func importResources
+//@   nopanic[C01,C06]
+//@   requires target != nil
+//@   requires has(target, "services") ==> isMap(target["services"]) && asMap(target["services"]) != target && asMap(target["services"]) != source
+//@   requires has(target, "volumes") ==> isMap(target["volumes"]) && asMap(target["volumes"]) != target && asMap(target["volumes"]) != source
+//@   requires has(target, "networks") ==> isMap(target["networks"]) && asMap(target["networks"]) != target && asMap(target["networks"]) != source
+//@   requires has(target, "secrets") ==> isMap(target["secrets"]) && asMap(target["secrets"]) != target && asMap(target["secrets"]) != source
+//@   requires has(target, "configs") ==> isMap(target["configs"]) && asMap(target["configs"]) != target && asMap(target["configs"]) != source
+//@   requires has(source, "services") ==> isNil(source["services"]) || isMap(source["services"])
+//@   requires has(source, "volumes") ==> isNil(source["volumes"]) || isMap(source["volumes"])
+//@   requires has(source, "networks") ==> isNil(source["networks"]) || isMap(source["networks"])
+//@   requires has(source, "secrets") ==> isNil(source["secrets"]) || isMap(source["secrets"])
+//@   requires has(source, "configs") ==> isNil(source["configs"]) || isMap(source["configs"])
+//@   requires source != target
+//@   ensures[C06] forall k string :: k != "services" && k != "volumes" && k != "networks" && k != "secrets" && k != "configs" ==> (has(target, k) <==> old(has(target, k))) && (has(target, k) ==> target[k] == old(target[k]))
+
+// C06: for each name of the source section: absent in target ⇒ added; present and deeply equal ⇒ accepted,
+// target unchanged; present and different ⇒ conflict error; all other target entries preserved.
+//@ func importResource
+//@   nopanic[C01,C06]
+//@? ensures[C06] has(source, key) && isMap(source[key]) && old(has(target, key)) && (exists n string :: has(asMap(source[key]), n) && old(has(asMap(target[key]), n)) && !deepeq(asMap(source[key])[n], old(asMap(target[key])[n]))) ==> err != nil // engine: reflect.DeepEqual is not linked to deepeq
+//@   requires target != nil && source != target
+//@   requires has(target, key) ==> isMap(target[key]) && asMap(target[key]) != target && asMap(target[key]) != source
+//@   requires has(source, key) ==> isNil(source[key]) || isMap(source[key])
+//@   ensures[C06] !has(source, key) || isNil(source[key]) ==> err == nil
+//@   ensures[C06] err == nil && has(source, key) && isMap(source[key]) ==> has(target, key) && isMap(target[key])
+//@   ensures[C06] err == nil && has(source, key) && isMap(source[key]) && old(has(target, key)) ==> asMap(target[key]) == old(asMap(target[key]))
+//@   ensures[C06] err == nil && has(source, key) && isMap(source[key]) && old(has(target, key)) ==> forall n string :: has(asMap(source[key]), n) ==> has(asMap(target[key]), n)
+//@   ensures[C06] err == nil && has(source, key) && isMap(source[key]) && old(has(target, key)) ==> forall n string :: old(has(asMap(target[key]), n)) ==> has(asMap(target[key]), n) && asMap(target[key])[n] == old(asMap(target[key])[n])
+//@   ensures[C06] err == nil && has(source, key) && isMap(source[key]) && old(has(target, key)) && asMap(source[key]) != old(asMap(target[key])) ==> forall n string :: has(asMap(source[key]), n) && !old(has(asMap(target[key]), n)) ==> asMap(target[key])[n] == asMap(source[key])[n]
+//@   ensures[C06] forall k string :: k != key ==> (has(target, k) <==> old(has(target, k))) && (has(target, k) ==> target[k] == old(target[k]))
+//@   ensures[C06] forall k string :: (has(source, k) <==> old(has(source, k))) && (has(source, k) ==> source[k] == old(source[k]))
+//@   loop 1
+//@? invariant old(has(target, key)) ==> forall n string :: seen(n) && old(has(asMap(target[key]), n)) ==> deepeq(asMap(source[key])[n], old(asMap(target[key])[n])) // engine: reflect.DeepEqual is not linked to deepeq
+//@     invariant forall k string :: (has(target, k) <==> old(has(target, k))) && (has(target, k) ==> target[k] == old(target[k]))
+//@     invariant forall k string :: (has(source, k) <==> old(has(source, k))) && (has(source, k) ==> source[k] == old(source[k]))
+//@     invariant old(has(target, key)) ==> forall n string :: seen(n) ==> has(asMap(target[key]), n)
+//@     invariant old(has(target, key)) ==> forall n string :: old(has(asMap(target[key]), n)) ==> has(asMap(target[key]), n) && asMap(target[key])[n] == old(asMap(target[key])[n])
+//@     invariant old(has(target, key)) ==> forall n string :: has(asMap(target[key]), n) ==> old(has(asMap(target[key]), n)) || seen(n)
+//@     invariant old(has(target, key)) && asMap(source[key]) != old(asMap(target[key])) ==> forall n string :: seen(n) && !old(has(asMap(target[key]), n)) ==> asMap(target[key])[n] == asMap(source[key])[n]
+
+// ---------------------------------------------------------------- loader.go: entry points (C01 result shape, C17 name)
+
+//@ func ParseYAML
+//@   nopanic[C01]
+//@   ensures[C01] (err == nil) ==> result.0 != nil
+//@   ensures[C01] (err != nil) ==> result.0 == nil
+
+//@ func parseYAML
+//@   nopanic[C01]
+//@   ensures[C01] (err == nil) ==> result.0 != nil && result.1 != nil
+//@   ensures[C01] (err != nil) ==> result.0 == nil && result.1 == nil
+
+//@ func LoadConfigFiles
+//@   nopanic[C01]
+//@   ensures[C01] len(configFiles) < 1 ==> err != nil
+//@   ensures[C01] err == nil ==> result.0 != nil
+
+//@ func Load
+//@   nopanic[C01]
+//@   ensures[C01] (err == nil) != (result.0 == nil)
+
+//@ func LoadWithContext
+//@   nopanic[C01]
+//@   ensures[C01] (err == nil) != (result.0 == nil)
+
+//@ func LoadModelWithContext
+//@   nopanic[C01]
+//@   ensures[C01] (err == nil) != (result.0 == nil)
+
+//@ func loadModelWithContext
+//@   nopanic[C01,C17]
+//@   requires configDetails != nil && opts != nil && opts.Interpolate != nil
+//@   ensures[C01] (err == nil) != (result.0 == nil)
+//@   ensures[C01] old(len(configDetails.ConfigFiles)) < 1 ==> err != nil
+
+//@ func toOptions
+//@   nopanic[C01]
+//@   requires configDetails != nil
+//@   ensures[C01] result != nil && result.Interpolate != nil
+
+//@ func loadYamlModel
+//@   nopanic[C01,C04]
+//@   requires opts != nil && ct != nil
+//@   ensures[C01] (err == nil) != (result.0 == nil)
+//@   loop 1
+//@     invariant dict != nil
+
+// C01: an unreadable file is an error (returned unchanged), never skipped
+//@ func loadYamlFile
+//@   nopanic[C01,C04]
+//@   requires opts != nil && ct != nil && dict != nil
+//@   ensures[C01] (err == nil) != (result.0 == nil)
+//@   ensures[C01] err != nil ==> result.1 == nil
+
+//@ func loadYamlFile$1
+//@   nopanic[C01,C04]
+//@   requires opts != nil && ct != nil && dict != nil
+//@   requires ctx != nil // context.WithValue is not modelled by the engine: this one is not established at the creation site
+
+// C01: an include cycle is an error; C17: a successful load has a non-empty project name
+//@ func load
+//@   nopanic[C01,C17]
+//@   requires opts != nil && len(configDetails.ConfigFiles) >= 1
+//@   ensures[C01] (err == nil) != (result.0 == nil)
+//@   ensures[C01] (exists i int :: 0 <= i && i < len(loaded) && old(loaded[i]) == old(configDetails.ConfigFiles[0].Filename)) ==> err != nil
+//@   ensures[C17] err == nil ==> opts.projectName != ""
+//@   loop 1
+//@     invariant -1 <= rangeindex && rangeindex < len(loaded)
+//@     invariant forall j int :: 0 <= j && j <= rangeindex ==> loaded[j] != mainFile
+//@     decreases[C01] len(loaded) - rangeindex
+
+//@ func modelToProject
+//@   nopanic[C01]
+//@   requires dict != nil && opts != nil
+//@   ensures[C01] (err == nil) != (result.0 == nil)
+
+// C17: an imperatively requested name (explicit or COMPOSE_PROJECT_NAME) that is not in normal form is rejected;
+// otherwise the candidate from the compose files replaces the guessed name iff it is non-empty AFTER normalisation;
+// on every return path COMPOSE_PROJECT_NAME in the project environment is the project name.
+//@ func projectName
+//@   nopanic[C01,C17]
+//@   requires details != nil && opts != nil
+//@   requires !opts.SkipInterpolation ==> opts.Interpolate != nil
+//@   ensures[C17] details.Environment != nil && has(details.Environment, "COMPOSE_PROJECT_NAME") && details.Environment["COMPOSE_PROJECT_NAME"] == opts.projectName
+//@   ensures[C17] old(opts.projectNameImperativelySet) ==> opts.projectName == old(opts.projectName)
+//@?  ensures[C17] err == nil && old(opts.projectName) != "" ==> opts.projectName != "" // engine: needs the invariants below
+//@?  ensures[C17] err == nil && !old(opts.projectNameImperativelySet) && opts.projectName != old(opts.projectName) ==> opts.projectName != "" // engine: needs the invariants below
+//@?  ensures[C01] len(details.ConfigFiles) == old(len(details.ConfigFiles)) // engine: needs the invariants below
+//@   loop 1
+//@     invariant details != nil && opts != nil
+//@?    invariant opts.projectName == old(opts.projectName) && opts.projectNameImperativelySet == old(opts.projectNameImperativelySet) // engine: decoder.Decode(&n) havocs every heap
+//@?    invariant opts.SkipInterpolation == old(opts.SkipInterpolation) && opts.Interpolate == old(opts.Interpolate) // engine: decoder.Decode(&n) havocs every heap
+//@?    invariant len(details.ConfigFiles) == old(len(details.ConfigFiles)) // engine: decoder.Decode(&n) havocs every heap
+//@   loop 2
+//@     invariant details != nil && opts != nil
+//@?    invariant opts.projectName == old(opts.projectName) && opts.projectNameImperativelySet == old(opts.projectNameImperativelySet) // engine: decoder.Decode(&n) havocs every heap
+//@?    invariant opts.SkipInterpolation == old(opts.SkipInterpolation) && opts.Interpolate == old(opts.Interpolate) // engine: decoder.Decode(&n) havocs every heap
+//@?    invariant len(details.ConfigFiles) == old(len(details.ConfigFiles)) // engine: decoder.Decode(&n) havocs every heap
+
+// the deferred export: COMPOSE_PROJECT_NAME := project name, on every return path
+//@ func projectName$1
+//@   nopanic[C01,C17]
+//@   requires details != nil && opts != nil
+//@   ensures[C17] details.Environment != nil && has(details.Environment, "COMPOSE_PROJECT_NAME") && details.Environment["COMPOSE_PROJECT_NAME"] == opts.projectName
+//@   ensures[C17] opts.projectName == old(opts.projectName)
+
+//@ func NormalizeProjectName
+//@   nopanic[C01,C17]
+
+//@ func processExtensions
+//@   nopanic[C01]
+//@   requires dict != nil
+//@   ensures[C01] err == nil ==> result.0 == dict
+//@   ensures[C01] err != nil ==> result.0 == nil
+
+//@ func Transform
+//@   nopanic[C01]
+
+//@ func nameServices
+//@   nopanic[C01]
+
+//@ func secretConfigDecoderHook
+//@   nopanic[C01]
+
+// C01: the string-key invariant of the tree: on success no map[any]any remains at the top, a non-string key is an error
+//@ func convertToStringKeysRecursive
+//@   nopanic[C01]
+//@   ensures[C01] err == nil ==> wf(result.0) && !isMapAA(result.0)
+//@   ensures[C01] err == nil && isMap(value) ==> result.0 == value
+//@   ensures[C01] err == nil && isMapAA(value) ==> isMap(result.0)
+//@   ensures[C01] err == nil && !isMap(value) && !isMapAA(value) && !isList(value) ==> result.0 == value
+//@   ensures[C01] err != nil ==> result.0 == nil
+
+//@ func convertVolumePath
+//@   nopanic[C01]
